@@ -423,8 +423,42 @@ def p_term(t):
     return "..".join(segs)
 
 
-def p_mexpr(me):
-    return '="' + "".join("{%s %s}" % (e[1], e[2]) if e[0] == 'b' else e[1] for e in me) + '"'
+# lexical variation of the SUGAR text only (the core text stays canonical): LEX is a random.Random or None
+LEX = None
+
+
+def ws(must=False):
+    """legal token separator: blanks, tabs, newlines, line comments (`#...` up to end of line)"""
+    if LEX is None:
+        return " " if must else ""
+    r = LEX.random()
+    if r < 0.45:
+        return " " if must else ""
+    if r < 0.6:
+        return " "
+    return LEX.choice(["  ", "\t", "\n", " \n  ", "\r\n", " # c: x\n", "\t\t ", "\n\n"])
+
+
+def bws(must=False):
+    """blanks/tabs inside a match-expression binder (MexprLexer mode VAR_DECL skips [ \\t\\n\\r]+)"""
+    if LEX is None:
+        return " " if must else ""
+    opts = [" ", "  ", "\t", " \t ", "   "] if must else ["", "", " ", "  ", "\t"]
+    return LEX.choice(opts)
+
+
+def p_mexpr(me, vary=False):
+    if not vary or LEX is None:
+        return '="' + "".join("{%s %s}" % (e[1], e[2]) if e[0] == 'b' else e[1] for e in me) + '"'
+    return '=' + ws() + '"' + "".join("{" + bws() + e[1] + bws(True) + e[2] + bws() + "}" if e[0] == 'b' else e[1]
+                                      for e in me) + '"'
+
+
+def par(txt):
+    """optional extra parentheses around a formula"""
+    if LEX is not None and LEX.random() < 0.15:
+        return "(" + ws() + txt + ws() + ")"
+    return txt
 
 
 def p_pred(aid, ts):
@@ -461,19 +495,19 @@ def p_sugar(f):
             return p_atom_smt(f[2], ts, f[4], False)
         return p_pred(f[2], ts)
     if k == 'not':
-        return f"not ({p_sugar(f[1])})"
+        return par(f"not{ws(True)}({ws()}{p_sugar(f[1])}{ws()})")
     if k == 'int':
-        return f"{'forall' if f[1] else 'exists'} int {f[2]}: ({p_sugar(f[3])})"
+        return par(f"{'forall' if f[1] else 'exists'}{ws(True)}int{ws(True)}{f[2]}{ws()}:{ws()}({p_sugar(f[3])})")
     if k == 'q':
         _, fa, T, name, inn, body, me = f
-        s = ("forall " if fa else "exists ") + T + (" " + name if name else "")
+        s = ("forall" if fa else "exists") + ws(True) + T + (ws(True) + name if name else "")
         if me is not None:
-            s += (" " if not name else "") + p_mexpr(me)
+            s += (ws(True) if not name else ws()) + p_mexpr(me, True)
         if inn:
-            s += " in " + inn[1]
-        return f"{s}: ({p_sugar(body)})"
+            s += ws(True) + "in" + ws(True) + inn[1]
+        return par(f"{s}{ws()}:{ws()}({ws()}{p_sugar(body)}{ws()})")
     op = {'and': 'and', 'or': 'or', 'imp': 'implies', 'iff': 'iff', 'xor': 'xor'}[k]
-    return f"(({p_sugar(f[1])}) {op} ({p_sugar(f[2])}))"
+    return f"(({p_sugar(f[1])}){ws(True)}{op}{ws(True)}({p_sugar(f[2])}))"
 
 
 # core formulas (python): ('atom', smt, id, [names]) ('not',f) ('and',a,b) ('or',a,b)
@@ -1131,6 +1165,7 @@ GUARD_IMPORTS = "SugarCompose SugarComposeX SugarCompose2"
 
 def run(run):
     rng = random.Random(run.seed)
+    lex_rng = random.Random(run.seed * 7919 + 13)
     thorough = run.tier == "thorough"
     run.cov["rule"] = ("surface formulas generated AST-first over 6 grammars (user-written match expressions whose variable names are "
                        "partly drawn from the names the elaboration invents, numeric quantifiers with count, infix chains "
@@ -1153,7 +1188,7 @@ def run(run):
     hist = {"parse_ok": 0, "parse_raise": 0, "doc_undefined": 0, "eval_pairs": 0, "eval_agree": 0,
             "known_pushin_empty": 0, "known_dotdot_polarity": 0, "known_fresh_clash": 0, "known_root_also_free": 0, "known_xpath_dup": 0, "known_uniq_capture": 0, "nonconstant_formulas": 0, "uses_xpath": 0, "uses_dotdot": 0,
             "uses_free_nt": 0, "uses_derived": 0, "undecodable": 0, "uses_user_mexpr": 0,
-            "uses_mexpr_var_and_free_nt_same_type": 0, "uses_numeric_quantifier": 0, "uses_infix_chain": 0}
+            "uses_mexpr_var_and_free_nt_same_type": 0, "uses_numeric_quantifier": 0, "uses_infix_chain": 0, "lexical_variation": 0}
     cases, meta = [], []          # tie (i)
     eval_viol = []                # tie (ii)
     case_of = {}                  # formula number -> index in `cases` (guard evaluation in Coq)
@@ -1166,7 +1201,12 @@ def run(run):
         g = GRAMMARS[gi]
         gen = Gen(rng, g)
         f = gen.capture_formula() if rng.random() < 0.07 else gen.formula(rng.randint(1, 3), [])
+        # lexical variation (own PRNG, so the formula stream does not depend on it): 60 % of the texts
+        global LEX
+        LEX = lex_rng if lex_rng.random() < 0.6 else None
         sugar = p_sugar(f)
+        hist["lexical_variation"] += LEX is not None
+        LEX = None
         nontrivial = changes_ast(f)
         run.count((gi, sugar), nontrivial)
         txt = json.dumps(f)
